@@ -141,6 +141,12 @@ def inputs_for(rng, case, k):
                     rng.shuffle(inp)
                 if rng.random() < 0.2:
                     inp[rng.randrange(len(inp))] = rng.choice(GG.GARBAGE)
+                if rng.random() < 0.08:
+                    # a wrong number of input boxes: refused, or graded with exactly one entry per submitted input
+                    if rng.random() < 0.5:
+                        inp.append(rng.choice(['cat', '1', 'x']))
+                    elif len(inp) > 1:
+                        inp.pop()
         else:
             kind = 'garbage'
             if n is None or (case['cls'] == 'SumGrader' and n == 1 and rng.random() < 0.5):
@@ -226,7 +232,7 @@ def run(ctx):
             ctx.inconclusive_because('harness: generated configuration rejected: %r %r' % (case['desc'], exc))
             return
         for kind, inp in inputs_for(rng, case, ctx.pick(6, 10)):
-            attempt = rng.choice([1, 2, 3, 7, 50])
+            attempt = rng.choice([1, 2, 3, 7, 50, 0, -2])
             kwargs = {'attempt': attempt} if sched is not None else {}
             expect = None
             if case.get('needs_expect'):
